@@ -10,6 +10,7 @@ package server
 import (
 	"bytes"
 	"fmt"
+	"net/url"
 	"os"
 	"sort"
 	"strings"
@@ -294,6 +295,9 @@ func TestVerifC16(t *testing.T) {
 				for k := 0; k < perTok; k++ {
 					plan = append(plan, nil)
 				}
+				if (rt.Method == "GET" || rt.Method == "") && strings.HasSuffix(rt.Path, "/stream") {
+					c16StreamCheck(ctx, cs, f, tok, rt.Path)
+				}
 				for _, dir := range plan {
 					if dir != nil && (tok.Role == "admin" || (tok.global() && !dir.Global) || (dir.NoAB && spec.NS == "AB")) {
 						continue // the directed shapes are about restricted tokens
@@ -345,7 +349,20 @@ func TestVerifC16(t *testing.T) {
 			f.mintSpec("write", "*") // a second token whose jti the generator can aim at
 			tok := f.mintSpec(spec.Role, spec.NS)
 			n := cs.R.Range(20, ctx.N(40, 80))
+			var streams []string
+			for _, rt := range routes {
+				if (rt.Method == "GET" || rt.Method == "") && strings.HasSuffix(rt.Path, "/stream") {
+					streams = append(streams, rt.Path)
+				}
+			}
+			streamAt := -1
+			if len(streams) > 0 && cs.R.Chance(0.5) {
+				streamAt = cs.R.Intn(n) // somewhere inside the episode, after some of its own requests
+			}
 			for k := 0; k < n; k++ {
+				if k == streamAt {
+					c16StreamCheck(ctx, cs, f, tok, vkit.Pick(cs.R, streams))
+				}
 				q := g.instantiate(vkit.Pick(cs.R, routes), tok, nil)
 				if c16Guarded(ctx, tok, q) {
 					continue
@@ -362,4 +379,47 @@ func TestVerifC16(t *testing.T) {
 
 		c16AuthGroups(ctx)
 	})
+}
+
+// c16StreamCheck: a restricted token holds a stream route open while the root token writes to
+// every index. Clause: "a token restricted to some namespaces can never read ... another index" -
+// an event {type, index_name, id, target_id, rel_type} of an index outside the token is data of
+// that index. While D-C16-10 is listed as known the root writes go to the token's own indexes
+// only (the stream is still exercised; the exact trigger - an event of another index - is not).
+func c16StreamCheck(ctx *vkit.Ctx, cs *vkit.Case, f *c16Fix, tok *c16Token, path string) {
+	if tok.global() || tok.Role == "admin" {
+		return
+	}
+	var own string
+	var foreign []string
+	for _, ix := range f.idx {
+		if tok.allows(ix.Name) {
+			own = ix.Name
+		} else {
+			foreign = append(foreign, ix.Name)
+		}
+	}
+	if own == "" {
+		return
+	}
+	if ctx.IsKnown("D-C16-10") {
+		ctx.Count("guarded.D-C16-10", 1)
+		foreign = nil
+	}
+	target := path + "?" + vkit.Pick(cs.R, []string{"index", "index_name"}) + "=" + url.QueryEscape(own)
+	cs.Op("%s -> GET %s held open while root adds vectors to %v, then %s", tok, target, foreign, own)
+	code, evs, raw, seen := f.streamEpisode(tok, target, own, foreign)
+	ctx.Count("stream_episodes", 1)
+	if !seen {
+		ctx.Count("stream_episodes_without_events", 1)
+		return
+	}
+	ctx.Eval(1)
+	ctx.Distinct(fmt.Sprintf("stream|%s|%s|%d", path, tok.Role, len(tok.NS)))
+	ctx.Count("stream_events_read", int64(len(evs)))
+	for _, ev := range evs {
+		if !tok.allows(ev.IndexName) {
+			cs.Fail("[ns-read] a token restricted to %v received an event of index %q (%s id %q) on a stream | request: GET %s | token: %s | response: %d %s", tok.NS, ev.IndexName, ev.Type, ev.ID, target, tok, code, c16Trunc(string(raw)))
+		}
+	}
 }
